@@ -4,6 +4,7 @@ import builtins
 import enum
 import inspect
 import math
+import time
 import types
 
 import numpy as np
@@ -876,6 +877,8 @@ class Interp(Engine):
         """Call of a Python function with source: modular if it has a contract, else inlined."""
         fn_u = inspect.unwrap(fn) if hasattr(fn, "__wrapped__") else fn
         ext = self.contract.externals.get(qualname_of(fn_u))
+        if ext is None and getattr(self, "root_contract", None) is not None:
+            ext = self.root_contract.externals.get(qualname_of(fn_u))    # also inside the clauses of modular callees
         if ext is not None:
             return ext(self, args, kwargs)
         callee_contract = self.registry.by_fn.get(id(fn_u))
@@ -1408,6 +1411,9 @@ class Interp(Engine):
     def exec_stmt(self, node):
         if hasattr(node, "lineno"):
             self.cur_line = node.lineno
+        dl = getattr(self.sh, "deadline", None)
+        if dl is not None and time.time() > dl:
+            raise Unsupported("time budget of the bounded refutation pass exhausted")
         m = getattr(self, "st_" + type(node).__name__, None)
         if m is None:
             raise Unsupported("statement %s (line %s)" % (type(node).__name__, getattr(node, "lineno", "?")))
